@@ -21,6 +21,29 @@ Proof.
   destruct (Z.eqb v 7), (Z.eqb v 12), (Z.eqb a 10), (Z.eqb a 13); split; vm_compute; reflexivity.
 Qed.
 
+(* ... and every version of the PMT (C06: the late-track fix sends version 1, 2): 16 x 32 closed cases *)
+Lemma pack_pmt_ver_0 v a : pack_pmt_ver v a 0 = pack_pmt v a.
+Proof. reflexivity. Qed.
+
+Lemma N_lt32_cases (P : N -> Prop) :
+  (forall i, In i (map N.of_nat (seq 0 32)) -> P i) -> forall k, k < 32 -> P k.
+Proof.
+  intros H k Hk. apply H. apply in_map_iff. exists (N.to_nat k). split; [lia|]. apply in_seq. lia.
+Qed.
+
+Lemma pack_pmt_ver_ok v a k :
+  length (pack_pmt_ver v a k) = 188%nat /\
+  parse_pmt_packet (pack_pmt_ver v a k)
+  = Some {| pmt_ts_pid := 4097; pmt_program := 1; pmt_pcr_pid := 256; pmt_streams_of := expected_streams v a |}.
+Proof.
+  unfold pack_pmt_ver, pmt_psi_ver, pmt_streams, expected_streams.
+  assert (Hk : k mod 32 < 32) by (apply N.mod_lt; discriminate).
+  revert Hk. generalize (k mod 32). clear k.
+  destruct (Z.eqb v 7), (Z.eqb v 12), (Z.eqb a 10), (Z.eqb a 13);
+    (apply N_lt32_cases; intros i Hi; cbn [map seq In N.of_nat] in Hi;
+     repeat (destruct Hi as [<-|Hi]; [split; vm_compute; reflexivity|]); destruct Hi).
+Qed.
+
 (* the declared elementary streams are exactly the known codecs *)
 Lemma expected_streams_exact v a :
   map es_stream_type (expected_streams v a)
